@@ -32,7 +32,7 @@ var indSpecs = []indSpec{
 	// trend A
 	{name: "Apo", dflt: [3]int{14, 30, 0}, nper: 2, nin: 1, ordered: true}, {name: "Aroon", nper: 1, nin: 2, heavy: true, c15: true, depMinP: 2, qDn: 3, tDn: 4}, {name: "Bop", nper: 0, nin: 4, c15: true},
 	{name: "Cci", dflt: [3]int{20, 0, 0}, nper: 1, nin: 3, minP: 2}, {name: "Dema", dflt: [3]int{20, 20, 0}, nper: 2, nin: 1}, {name: "EnvelopeSma", dflt: [3]int{20, 0, 0}, nper: 1, nin: 1, c15: true}, {name: "EnvelopeEma", dflt: [3]int{20, 0, 0}, nper: 1, nin: 1, c15: true},
-	{name: "Hma", nper: 1, nin: 1}, {name: "Kama", nper: 3, nin: 1, nonlin: true}, {name: "Kdj", nper: 3, nin: 3, heavy: true, qDn: 1, tDn: 2}, {name: "MassIndex", nper: 3, nin: 2},
+	{name: "Hma", nper: 1, nin: 1}, {name: "Kama", nper: 3, nin: 1, nonlin: true}, {name: "Kdj", nper: 3, nin: 3, heavy: true, qDn: 1, tDn: 2}, {name: "MassIndex", nper: 3, nin: 2, nonlin: true},
 	// trend B
 	{name: "Mls", nper: 1, nin: 2, minP: 2, nonlin: true}, {name: "Mlr", nper: 1, nin: 2, minP: 2, nonlin: true},
 	{name: "MovingMax", nper: 1, nin: 1, heavy: true, c15: true}, {name: "MovingMin", nper: 1, nin: 1, heavy: true, c15: true}, {name: "MovingSum", nper: 1, nin: 1},
@@ -98,6 +98,9 @@ func (s indSpec) configs(maxP int) [][3]int {
 					}
 					// thin the cube: keep configurations where alignment amounts differ pairwise
 					// somewhere, the diagonal, and the all-ones corner
+					if s.heavy && maxP <= 2 && a+b+c >= 6 {
+						continue // the all-maximal corner of a search-tree based indicator: thorough tier only
+					}
 					if a == b && b == c || a != b && b != c || a == 1 && b == 1 || b == 1 && c == 1 {
 						out = append(out, [3]int{a, b, c})
 					}
@@ -270,6 +273,13 @@ func init() {
 					}
 					for n := 0; n <= top; n++ {
 						out = append(out, csi("H_C02", s, cfg, n))
+					}
+					if !s.heavy {
+						// the same length contract when one executed division has a zero denominator
+						// (NaN / Inf natively): values are exempt there, the number of values is not
+						c := csi("H_C02", s, cfg, w+2)
+						c.ZeroDen = 1
+						out = append(out, c)
 					}
 					dd := 2
 					if s.heavy || s.nonlin && tier != "thorough" {
